@@ -27,15 +27,16 @@ class SendModel(object):
     def __init__(self, cfg, nthreads, nmsgs, reentrant, qcap=None):
         self.cfg = cfg
         self.T = nthreads
-        self.M = nmsgs
+        self.Ms = list(nmsgs) if isinstance(nmsgs, (list, tuple)) else [nmsgs] * nthreads
+        self.M = max(self.Ms)
         self.R = 1 if reentrant else 0          # re-entrant sends per thread
         self.reentrant = reentrant
         self.ids = []                            # all message ids
         self.main_ids = {}
         k = 1
         for t in range(nthreads):
-            self.main_ids[t] = list(range(k, k + nmsgs))
-            k += nmsgs
+            self.main_ids[t] = list(range(k, k + self.Ms[t]))
+            k += self.Ms[t]
         self.nested_ids = {}
         for t in range(nthreads):
             self.nested_ids[t] = list(range(k, k + self.R))
@@ -193,7 +194,7 @@ class SendModel(object):
             d2 = S.v["depth%d" % t] == 2
             # nested frame returns to the writer; outer frame starts the next message or finishes
             nxt = S.v["next%d" % t]
-            more = z3.ULT(nxt, self.M)
+            more = z3.ULT(nxt, self.Ms[t])
             Wk.set("depth%d" % t, 1, d2)
             # outer frame
             ids = self.main_ids[t]
@@ -351,7 +352,8 @@ def build(nthreads, nmsgs, reentrant):
 def steps_needed(cfg, nthreads, nmsgs, reentrant):
     # per message: entry(2) + per loop iteration <= 7 locations; every message can cause at most
     # (#messages in flight + 1) iterations in total across threads.  Checked by the unwinding assertion.
-    total = nthreads * nmsgs + (nthreads if reentrant else 0)
+    msgs = sum(nmsgs) if isinstance(nmsgs, (list, tuple)) else nthreads * nmsgs
+    total = msgs + (nthreads if reentrant else 0)
     return 4 * total + 9 * total + (4 if reentrant else 0)
 
 
@@ -388,7 +390,8 @@ from engine.sched import Gate, Mismatch
 from rpyc.core.protocol import Connection
 from rpyc.core.service import VoidService
 from rpyc.core import consts, brine
-T, M, schedule, lines = %(T)d, %(M)d, %(schedule)r, %(lines)r
+T, M, schedule, lines = %(T)d, %(M)r, %(schedule)r, %(lines)r
+Ms = list(M) if isinstance(M, (list, tuple)) else [M] * T
 gate = Gate({Connection._send.__code__: set(lines)}, timeout=3.0)
 class Chan(object):
     def __init__(self):
@@ -409,7 +412,7 @@ chan = Chan()
 conn = Connection(VoidService(), chan)
 ids = {}; k = 1
 for t in range(T):
-    ids[t] = list(range(k, k + M)); k += M
+    ids[t] = list(range(k, k + Ms[t])); k += Ms[t]
 def worker(t):
     def run():
         for i in ids[t]:
@@ -459,7 +462,7 @@ if bad:
 
 
 def replay_script(cfg, model, schedule):
-    return REPLAY % dict(T=model.T, M=model.M, schedule=schedule, lines=cfg.lines()) + REPLAY_CHECK
+    return REPLAY % dict(T=model.T, M=model.Ms, schedule=schedule, lines=cfg.lines()) + REPLAY_CHECK
 
 
 def run_config(run, ob, T, M, reentrant, timeout_s, max_preempt=None):
@@ -475,11 +478,11 @@ def run_config(run, ob, T, M, reentrant, timeout_s, max_preempt=None):
     r, m = bmc.check("deadlock", timeout_ms=timeout_s * 1000)
     info["deadlock@%d" % K] = (r, round(bmc.last_time, 1))
     if r == "unknown":
-        raise Unsupported("engine B: deadlock query unknown/timeout for %dx%d" % (T, M))
+        raise Unsupported("engine B: deadlock query unknown/timeout for %dx%s" % (T, M))
     if r == "sat":
         sched = model_trace(cfg, model, bmc, m)
-        run.replay(ob, "send:deadlock:%dx%d%s" % (T, M, ":reentrant" if reentrant else ""),
-                   "a sender blocks forever (%d threads x %d messages%s); schedule: %s" % (T, M, ", re-entrant send" if reentrant else "", sched[:40]),
+        run.replay(ob, "send:deadlock:%dx%s%s" % (T, M, ":reentrant" if reentrant else ""),
+                   "a sender blocks forever (%d threads x %s messages%s); schedule: %s" % (T, M, ", re-entrant send" if reentrant else "", sched[:40]),
                    replay_script(cfg, model, sched))
         ob.samples.append(info)
         return cfg, model, bmc, info
@@ -494,32 +497,32 @@ def run_config(run, ob, T, M, reentrant, timeout_s, max_preempt=None):
         if r == "unsat":
             break
         if r == "unknown":
-            raise Unsupported("engine B: unwinding query unknown/timeout for %dx%d at K=%d" % (T, M, K))
+            raise Unsupported("engine B: unwinding query unknown/timeout for %dx%s at K=%d" % (T, M, K))
         K += 6
         if K > 120:
-            raise core.BoundExceeded("engine B: no step bound <= 120 satisfies the unwinding assertion for %dx%d" % (T, M))
+            raise core.BoundExceeded("engine B: no step bound <= 120 satisfies the unwinding assertion for %dx%s" % (T, M))
     info["steps"] = K
     info["unwinding"] = tries
     # 2. safety at every step and final-state properties (one query)
     r, m = bmc.check("deadlock", timeout_ms=timeout_s * 1000)
     info["deadlock"] = (r, round(bmc.last_time, 1))
     if r == "unknown":
-        raise Unsupported("engine B: deadlock query unknown/timeout for %dx%d" % (T, M))
+        raise Unsupported("engine B: deadlock query unknown/timeout for %dx%s" % (T, M))
     if r == "sat":
         sched = model_trace(cfg, model, bmc, m)
-        run.replay(ob, "send:deadlock:%dx%d%s" % (T, M, ":reentrant" if reentrant else ""),
-                   "a sender blocks forever (%d threads x %d messages%s); schedule: %s" % (T, M, ", re-entrant send" if reentrant else "", sched[:40]),
+        run.replay(ob, "send:deadlock:%dx%s%s" % (T, M, ":reentrant" if reentrant else ""),
+                   "a sender blocks forever (%d threads x %s messages%s); schedule: %s" % (T, M, ", re-entrant send" if reentrant else "", sched[:40]),
                    replay_script(cfg, model, sched))
         ob.samples.append(info)
         return cfg, model, bmc, info
     r, m = bmc.check(lambda S: z3.Or(model.bad_any(S), model.bad_final(S)), at="any", timeout_ms=timeout_s * 1000, cubes=cubes)
     info["safety+final"] = (r, round(bmc.last_time, 1))
     if r == "unknown":
-        raise Unsupported("engine B: safety query unknown/timeout for %dx%d" % (T, M))
+        raise Unsupported("engine B: safety query unknown/timeout for %dx%s" % (T, M))
     if r == "sat":
         sched = model_trace(cfg, model, bmc, m)
-        sig = "send:%dx%d%s" % (T, M, ":reentrant" if reentrant else "")
-        run.replay(ob, sig, "interleaving/lost/stranded message for %d threads x %d messages%s; schedule of %d steps: %s" % (
+        sig = "send:%dx%s%s" % (T, M, ":reentrant" if reentrant else "")
+        run.replay(ob, sig, "interleaving/lost/stranded message for %d threads x %s messages%s; schedule of %d steps: %s" % (
             T, M, " with a re-entrant send" if reentrant else "", len(sched), sched[:40]), replay_script(cfg, model, sched))
     # 3. reachability twin: the final state is reachable at all
     r, m = bmc.check(model.all_done, at="last", timeout_ms=timeout_s * 1000)
@@ -629,7 +632,7 @@ def main():
         "brine.dump returns the message; channel.send = begin-write ... end-write with at most one re-entrant _send per thread in between",
     ]
     run.outside = ["more threads / messages than the stated configurations", "transport failures during the write (C11)"]
-    configs = [(2, 1, False, None), (1, 1, True, None), (2, 1, True, 3)]
+    configs = [(2, 1, False, None), (1, 1, True, None), (2, 1, True, 3), (2, (1, 2), False, 3)]
     if thorough:
         configs += [(2, 1, True, None), (2, 2, False, None), (3, 1, False, 3)]
     states = transitions = 0
@@ -645,8 +648,8 @@ def main():
             o.bounds = info
         return ob
     for (T, M, re, mp) in configs:
-        run.obligation("BMC_%dx%d%s%s" % (T, M, "_reentrant" if re else "", "_p%d" % mp if mp else ""),
-                       "%d threads x %d messages%s: no overlap, exactly once, per-thread order, queue empty, lock free; unwinding checked" % (
+        run.obligation("BMC_%dx%s%s%s" % (T, M if isinstance(M, int) else "".join(map(str, M)), "_reentrant" if re else "", "_p%d" % mp if mp else ""),
+                       "%d threads x %s messages%s: no overlap, exactly once, per-thread order, queue empty, lock free; unwinding checked" % (
                            T, M, ", re-entrant send" if re else ""), mk(T, M, re, mp))
 
     def conf(o):
